@@ -1,13 +1,233 @@
 package main
 
 import (
+	"flag"
 	"fmt"
-	"golang.org/x/tools/go/packages"
+	"os"
+	"path/filepath"
+	"sort"
+	"strings"
+	"time"
+
 	"golang.org/x/tools/go/ssa"
 )
 
+func verifDir() string {
+	if d := os.Getenv("GOCV_VERIF"); d != "" {
+		return d
+	}
+	return "/verif"
+}
+
 func main() {
-	_ = packages.NeedName
-	_ = ssa.GlobalDebug
-	fmt.Println("hi")
+	if len(os.Args) < 2 {
+		usage()
+	}
+	switch os.Args[1] {
+	case "dump":
+		P, err := loadProgram([]string{os.Args[2]})
+		if err != nil {
+			fmt.Fprintln(os.Stderr, err)
+			os.Exit(2)
+		}
+		for _, f := range P.findFuncs(os.Args[3]) {
+			fmt.Println("KEY", funcKey(f))
+			f.WriteTo(os.Stdout)
+		}
+	case "verify":
+		cmdVerify(os.Args[2:])
+	case "check":
+		cmdCheck(os.Args[2:])
+	default:
+		usage()
+	}
+}
+
+func usage() {
+	fmt.Fprintln(os.Stderr, "usage: gocv dump <pkg> <func> | verify [-t sec] [-specs dir] <pkgs,comma> <funckey>... | check <prop> <tier>")
+	os.Exit(2)
+}
+
+// cmdVerify: development entry: verify the named functions and print every obligation.
+func cmdVerify(args []string) {
+	fs := flag.NewFlagSet("verify", flag.ExitOnError)
+	tmo := fs.Int("t", 10, "per-configuration solver timeout (s)")
+	specs := fs.String("specs", filepath.Join(verifDir(), "specs"), "directory with *.gospec files")
+	out := fs.String("out", "", "scratch directory for SMT files")
+	keep := fs.Bool("v", false, "print discharged obligations too")
+	sweep := fs.Bool("sweep", false, "functions without a contract are checked for safety only")
+	fs.Parse(args)
+	rest := fs.Args()
+	if len(rest) < 2 {
+		usage()
+	}
+	P, err := loadProgram(strings.Split(rest[0], ","))
+	if err != nil {
+		fmt.Fprintln(os.Stderr, err)
+		os.Exit(2)
+	}
+	C, err := loadAllContracts(P, *specs)
+	if err != nil {
+		fmt.Fprintln(os.Stderr, err)
+		os.Exit(2)
+	}
+	V := newVerifier(P, C)
+	V.Sweep = *sweep
+	var fns []*ssa.Function
+	for _, k := range rest[1:] {
+		f := P.lookupFunc(k)
+		if f == nil {
+			cands := P.findFuncs(k)
+			if len(cands) == 0 {
+				fmt.Fprintf(os.Stderr, "no function %q\n", k)
+				os.Exit(2)
+			}
+			fns = append(fns, cands...)
+			continue
+		}
+		fns = append(fns, f)
+	}
+	dir := *out
+	if dir == "" {
+		dir, _ = os.MkdirTemp("", "gocv.")
+		defer os.RemoveAll(dir)
+	}
+	res := V.verifyFunctions(fns, nil, solveOpts{timeout: time.Duration(*tmo) * time.Second, seed: 0, outDir: dir, workers: 16})
+	bad := 0
+	for _, o := range res.Obls {
+		if o.Result != "unsat" || *keep {
+			fmt.Printf("%-8s %6dms %-14s %s  (%s)\n", o.Result, o.Ms, o.Solver, o.Name, o.Pos)
+			if o.Result != "unsat" {
+				bad++
+				if o.Result == "sat" {
+					fmt.Printf("    model: %s\n", firstLines(strings.SplitN(o.Output, "\n", 2)[1], 12))
+				} else if o.Result == "error" {
+					fmt.Printf("    output: %s\n", firstLines(o.Output, 5))
+				}
+			}
+		}
+	}
+	for _, s := range res.Structure {
+		fmt.Println("STRUCTURE", s)
+		bad++
+	}
+	var as []string
+	for k := range V.Assumed {
+		as = append(as, k)
+	}
+	sort.Strings(as)
+	cs, cu := 0, 0
+	for _, c := range res.Covers {
+		if c.Result == "sat" {
+			cs++
+		} else {
+			cu++
+		}
+	}
+	fmt.Printf("functions=%d obligations=%d discharged=%d failed=%d assumed-callees=%d covers(sat/other)=%d/%d\n", len(fns), len(res.Obls), res.Discharged, bad, len(as), cs, cu)
+	if *keep {
+		for _, a := range as {
+			fmt.Println("  assumed:", a)
+		}
+	}
+	if bad > 0 {
+		os.Exit(1)
+	}
+}
+
+type runResult struct {
+	Covers     []*Obligation
+	Obls       []*Obligation
+	Structure  []string
+	Discharged int
+	Funcs      []string
+	SolverTime time.Duration
+}
+
+// verifyFunctions encodes and solves the given functions (and lemmas).
+func (V *Verifier) verifyFunctions(fns []*ssa.Function, lemmas []*Lemma, opt solveOpts) *runResult {
+	res := &runResult{}
+	V.prepareAxioms()
+	for _, fn := range fns {
+		key := funcKey(fn)
+		fc := V.C.Funcs[key]
+		if fc == nil && !V.Sweep {
+			res.Structure = append(res.Structure, fmt.Sprintf("structure:%s: no contract found for function under verification", key))
+			continue
+		}
+		if fc != nil && fc.Extern {
+			res.Structure = append(res.Structure, fmt.Sprintf("structure:%s: contract is extern (assumed), cannot be verified", key))
+			continue
+		}
+		enc := V.encodeFunction(fn, fc)
+		for _, s := range enc.errs {
+			res.Structure = append(res.Structure, fmt.Sprintf("structure:%s: %s", key, s))
+		}
+		res.Obls = append(res.Obls, enc.obls...)
+		res.Covers = append(res.Covers, enc.covers...)
+		if len(enc.covers) == 0 && len(enc.errs) == 0 {
+			res.Structure = append(res.Structure, fmt.Sprintf("structure:%s: no reachable return (vacuous encoding)", key))
+		}
+		res.Funcs = append(res.Funcs, key)
+	}
+	for _, l := range lemmas {
+		res.Obls = append(res.Obls, V.encodeLemma(l)...)
+	}
+	start := time.Now()
+	V.solveAll(res.Obls, opt)
+	copt := opt
+	if copt.timeout > 3*time.Second {
+		copt.timeout = 3 * time.Second
+	}
+	V.solveAll(res.Covers, copt)
+	for _, c := range res.Covers {
+		if c.Result == "unsat" {
+			res.Structure = append(res.Structure, fmt.Sprintf("vacuity:%s: return is unreachable under the assumed contracts (contradictory requires/invariants/extern contracts)", c.Name))
+		}
+	}
+	// Houdini step for automatically proposed loop invariants: a candidate whose own
+	// check fails is dropped and the function is re-encoded without it.
+	for round := 0; round < 3; round++ {
+		redo := map[string]bool{}
+		for _, o := range res.Obls {
+			if o.Result != "unsat" && strings.Contains(o.Name, "[auto:") {
+				i := strings.Index(o.Name, ":loop")
+				j := strings.Index(o.Name, "]@")
+				V.autoOff[o.Func+"#"+o.Name[i+1:j+1]] = true
+				redo[o.Func] = true
+			}
+		}
+		if len(redo) == 0 {
+			break
+		}
+		var kept []*Obligation
+		for _, o := range res.Obls {
+			if !redo[o.Func] {
+				kept = append(kept, o)
+			}
+		}
+		res.Obls = kept
+		var again []*Obligation
+		for _, fn := range fns {
+			key := funcKey(fn)
+			if redo[key] {
+				enc := V.encodeFunction(fn, V.C.Funcs[key])
+				again = append(again, enc.obls...)
+			}
+		}
+		V.solveAll(again, opt)
+		res.Obls = append(res.Obls, again...)
+	}
+	res.SolverTime = time.Since(start)
+	for _, o := range res.Obls {
+		if o.Result == "unsat" {
+			res.Discharged++
+		}
+	}
+	return res
+}
+
+func cmdCheck(args []string) {
+	fmt.Fprintln(os.Stderr, "check: not implemented yet")
+	os.Exit(2)
 }
